@@ -395,6 +395,19 @@ def type_table():
     # E380 oversized word
     t.append(("E380:word64x3", mainless("word64 Q\n{\n\tx: i32,\n\ty: i32,\n\tz: i32,\n}"), {380}))
     t.append(("E380:word8", mainless("word8 Q\n{\n\tx: u16,\n}"), {380}))
+    # every declared size x every member width that does not fit, alone and after a member that does
+    widths = {"u8": 1, "i16": 2, "u32": 4, "i64": 8, "u128": 16, "i128": 16, "bool": 1}
+    for bits in (8, 16, 32, 64, 128):
+        for ty, w in widths.items():
+            if w * 8 > bits:
+                t.append(("E380:word%d:%s" % (bits, ty), mainless("word%d Q\n{\n\tx: %s,\n}" % (bits, ty)), {380}))
+            elif w * 8 == bits:
+                t.append(("word_fits:word%d:%s" % (bits, ty), mainless("word%d Q\n{\n\tx: %s,\n}" % (bits, ty)), "accept"))
+                t.append(("E380:word%d:%s+u8" % (bits, ty), mainless("word%d Q\n{\n\tx: %s,\n\ty: u8,\n}" % (bits, ty)), {380}))
+    t.append(("E380:word128:u128+u64", mainless("word128 Q\n{\n\ta: u128,\n\tb: u64,\n}"), {380}))
+    t.append(("E380:word128:u64+u128", mainless("word128 Q\n{\n\ta: u64,\n\tb: u128,\n}"), {380}))
+    t.append(("E380:word128:nested", mainless("word128 In\n{\n\ta: u128,\n}\n\nword128 Q\n{\n\ta: In,\n\tb: u8,\n}"), {380}))
+    t.append(("word_fits:word128:nested", mainless("word128 In\n{\n\ta: u128,\n}\n\nword128 Q\n{\n\ta: In,\n}"), "accept"))
     # E433 non-constant length
     t.append(("E433:variable", mainless("fn f(n: usize)\n{\n\tvar m = n * 2;\n\tvar data: [m]u8;\n}"), {433}))
     t.append(("E433:parameter", mainless("fn f(n: usize)\n{\n\tvar data: [n]u8;\n}"), {433}))
